@@ -288,7 +288,29 @@ def _tissue_case(case, mon):
     tol = 64 * len(r.vertices) * EPS * maxc * maxc
     if abs(tot - ref) > tol:
         mon.fail("additivity", "sum |cell area| = area enclosed by the outline", total=tot, outline=ref, tol=tol)
-    return [["tissue", len(r.cells), len(at.J), sorted(set(r.ks.values())), len(r.flipset)]], None
+    removed = 0
+    if rng.random() < 0.6 and len(r.cells) > 3:
+        # sub-tissue of the SAME objects: cells removed one after the other through the public API (the frame is rebuilt
+        # from the surviving objects and asks every cell for its neighbours again)
+        import forsys as fs
+        from forsys import frames
+        # removal works through Cell.__del__: the harness must not keep a removed cell alive
+        c = None
+        try:
+            with env.Capture():
+                solver = fs.ForSys({0: frames.Frame(0, r.vertices, r.edges, r.cells)})
+                for _ in range(int(rng.integers(1, 4))):
+                    if len(r.cells) <= 2:
+                        break
+                    cid = sorted(r.cells)[int(rng.integers(len(r.cells)))]
+                    solver.remove_cell(0, cid)
+                    removed += 1
+                    mon.count("tissue:cell-removed")
+                    for cid2 in sorted(r.cells):
+                        r.cells[cid2].calculate_neighbors()
+        except Exception as exc:
+            mon.count("tissue:remove-raised")
+    return [["tissue", len(r.cells), len(at.J), sorted(set(r.ks.values())), len(r.flipset), removed]], None
 
 
 
